@@ -66,6 +66,9 @@ theorem ltr_cur {s : State} {t : Tid} {e : Event} {x' : Thr} (hi : InvE s) (h : 
   | retBroadcast hl hb => simp [hl, Thr.fresh, hnone]
   | callWaitN hl => simp [hl, Thr.fresh, hnone]
   | retWaitN hl hm => simp [hl, Thr.fresh, hnone]
+  | callDebug k hl => simp [hl, Thr.fresh, hnone]
+  | retDebug k hl hk => simp [hl, Thr.fresh, hnone]
+  | dbgLd obs hl ho => split <;> simp [hl]
   | _ => simp_all
 
 end NsyncVerif.CvFix
